@@ -80,9 +80,14 @@ class AORun:
         def snap(sc):
           me.snaps[sc.last_rec] = ([shims.ident(x) for x in ao.locking_deque.deque.raw()], ao.locking_deque.locking_queue._size())
         sched.observers.append(snap)
-        ao.start_at(script.fn[1])
-        sched.run()                       # warm-up: every service thread reaches its blocking point
-        warm = len(sched.log)
+        if cfg.get("early"):
+          # the posters race the start of the object: start_at runs in a scheduled thread of its own
+          sched.spawn("starter", lambda: ao.start_at(script.fn[1]))
+          warm = 0
+        else:
+          ao.start_at(script.fn[1])
+          sched.run()                       # warm-up: every service thread reaches its blocking point
+          warm = len(sched.log)
         for p, prog in sorted(cfg["progs"].items()):
           sched.spawn(p, self.poster, p, prog)
         if cfg.get("stop"):
